@@ -62,32 +62,33 @@ func TestCheck(t *testing.T) {
 		shapes = append(shapes, shapeSpec{Name: fmt.Sprintf("%d blocks %s pruned<%d", n, pat, pruned), Shape: mkShape(n, pat), Pruned: pruned})
 	}
 	if r.Quick() {
-		for _, n := range []int{0, 1, 10, 11, 25, 36} {
+		for _, n := range []int{0, 1, 10, 11, 36} {
 			addShape(n, "mixed", 0)
 		}
 		addShape(36, "sparse", 0)
 		addShape(12, "lead-empty", 0)
 		addShape(23, "mixed", 7)
 	} else {
-		for n := 0; n <= 36; n++ {
-			addShape(n, "mixed", 0)
-			if n > 0 {
-				addShape(n, "dense", 0)
-			}
-		}
-		for _, n := range []int{12, 25, 36} {
+		// special shapes first so that a budget cut never drops them
+		for _, n := range []int{12, 36} {
 			addShape(n, "sparse", 0)
 			addShape(n, "lead-empty", 0)
 		}
-		for _, p := range []int{1, 7, 10, 22} {
+		for _, p := range []int{7, 10} {
 			addShape(23, "mixed", p)
 			addShape(36, "mixed", p)
+		}
+		for n := 36; n >= 0; n-- {
+			addShape(n, "mixed", 0)
+		}
+		for _, n := range []int{1, 10, 11, 20, 21, 30, 31, 36} {
+			addShape(n, "dense", 0)
 		}
 	}
 	all := perms4()
 	few := [][4]int{{0, 1, 2, 3}, {3, 2, 1, 0}}
-	// thorough, second process start: the rotations of the identity and of the reverse order (8 of the 24)
-	rot := [][4]int{{0, 1, 2, 3}, {1, 2, 3, 0}, {2, 3, 0, 1}, {3, 0, 1, 2}, {3, 2, 1, 0}, {2, 1, 0, 3}, {1, 0, 3, 2}, {0, 3, 2, 1}}
+	// thorough, second process start: identity, reverse and their half rotations (4 of the 24)
+	rot := [][4]int{{0, 1, 2, 3}, {2, 3, 0, 1}, {3, 2, 1, 0}, {1, 0, 3, 2}}
 	bc := &bCtx{r: r, t: t, fin: map[[32]byte]int{}}
 	ncpu := runtime.GOMAXPROCS(0)
 	var wg sync.WaitGroup
@@ -95,7 +96,7 @@ func TestCheck(t *testing.T) {
 	go func() { // part (a) runs beside part (b)
 		defer wg.Done()
 		t0 := time.Now()
-		failDepth = ev.Pick(r, 2, 99)
+		failDepth = ev.Pick(r, 1, 99)
 		exploreRunner(r, ev.Pick(r, 3, 4), max(2, ncpu/4))
 		r.Set("a_wall_s", time.Since(t0).Seconds())
 	}()
@@ -106,6 +107,6 @@ func TestCheck(t *testing.T) {
 	r.Set("distinct_nontrivial", r.Get("states"))
 	r.Set("traces_validated_against_impl", r.Get("evaluations"))
 	r.Set("rule", "a: BFS over (durable image, completed set): every process start = registry (1..4 migrations x optional flags) x one scripted outcome per Migrate/Before call (19 outcomes) x crash after / failure of every commit; "+
-		"b: BFS over durable images of old-layout chains: every commit order of the ingest ranges x {uninterrupted, crash after each commit, cancel at each commit, cancel at first read of each range, cancel before run, failure of each commit}, <=2 interruptions then a clean run (second process start: 8 commit orders thorough; quick tier: 2 orders and only crash / cancel-at-commit; runner BFS depth 3 quick / 4 thorough process starts); non-trivial = distinct durable images")
+		"b: BFS over durable images of old-layout chains: every commit order of the ingest ranges x {uninterrupted, crash after each commit, cancel at each commit, cancel at first read of each range, cancel before run, failure of each commit}, <=2 interruptions then a clean run (second process start: 4 commit orders thorough; quick tier: 2 orders and only crash / cancel-at-commit; runner BFS depth 3 quick / 4 thorough process starts); non-trivial = distinct durable images")
 	r.Finish()
 }
